@@ -42,6 +42,8 @@ class SymImro(str):
 
 
 class SymEntries:
+    _pyvc_ok = True         # len() of the list of matches: its (symbolic) length
+
     def __init__(self, imro, length):
         self.imro, self.length = imro, length
 
@@ -122,6 +124,11 @@ def sym_imec_meta(it, probe, band, with_maxint):
     md["imSampRate"] = SV(z3.Real("imSampRate"))
     if with_maxint:
         md["imMaxInt"] = SV(z3.ToReal(maxint))
+    # recent SpikeGLX versions also write the gains of channel 0 in the header: a per-channel factor never comes from them (the table may hold other gains on other channels)
+    g0a, g0l = z3.Reals("imChan0apGain imChan0lfGain")
+    it.ctx.assume(z3.And(g0a > 0, g0l > 0))
+    md["imChan0apGain"] = SV(g0a)
+    md["imChan0lfGain"] = SV(g0l)
     j = z3.Int("jj")
     it.ctx.assume(z3.ForAll([j], z3.And(F(j, z3.IntVal(3)) > 0, F(j, z3.IntVal(4)) > 0)))
     return md, nap, nsy, rng, maxint, F
@@ -409,6 +416,9 @@ def native_s2v_cases(rng, n):
               "snsApLfSy": [float(nsaved), 0.0, 1.0] if band == "ap" else [0.0, float(nsaved), 1.0], "imSampRate": 30000.0}
         md.update({"3A": {"typeEnabled": "1"}, "3B2": {"imDatPrb_type": 0.0, "imDatPrb_port": float(t % 3), "imDatPrb_slot": float((t // 3) % 4)}, "NP2.1": {"imDatPrb_type": 21.0},
                    "NP2.4": {"imDatPrb_type": 2013.0}, "NPultra": {"imDatPrb_type": 1100.0}}[kind])
+        if t % 2 == 0 and not kind.startswith("NP2"):
+            # recent SpikeGLX headers also carry the gains of channel 0 (the table holds other gains on other channels)
+            md.update({"imChan0apGain": float(ga[0]), "imChan0lfGain": float(gl[0])})
         if kind == "3B2" and spikeglx._get_neuropixel_version_from_meta(md) != "3B2":
             bad.append(("version of a 3B2 file with port / slot", md["imDatPrb_port"], md["imDatPrb_slot"]))
         out = spikeglx._conversion_sample2v_from_meta(md)
